@@ -266,6 +266,25 @@ def check_C08(ctx):
             ctx.violation("panic-before-hooks", "sub-command %r (hidden: %r) has the ill-formed spec %r and is compiled by %r, but Run did not panic with "
                           "the spec error: %r" % ("sub", [x["hidden"] for x in c["root"]["subs"] if x["name"] == "sub s"][0], c["_sub_spec"], c["argv"], a["outcome"]), case=c)
     ctx.stream("Run on specs", 0, spec_panics=npanic)
+    # a spec is compiled on every Run: a string assigned to the Spec field of an application that has already been run
+    # (with another, well-formed, spec) is lexed, parsed and checked like the first one
+    again = []
+    pool = strings[exhaustive:]
+    for s in [pool[i] for i in rng.sample(range(len(pool)), min(len(pool), ctx.scale(600, 6000)))]:
+        first_spec, first_argv = rng.choice([("", ["x", "y", "z"]), ("[-a] X...", ["x"]), ("[-a] X...", []), ("[OPTIONS] [X...]", ["-a"])])
+        root = gen.mkcmd("app", decls=decls, spec=s, policy=0, before={"k": "ret"}, after={"k": "ret"})
+        again.append({"op": "run", "env": {}, "version": None, "root": root, "argv": rng.choice([["x"], [], ["-a", "x"], ["x", "y"]]),
+                      "before": {"spec": first_spec, "argv": first_argv}})
+    res2 = correspond(ctx, again, ["outcome", "trace"], "a new spec on an application that already ran")
+    nagain = 0
+    for c in again:
+        a, b = res2[c["id"]]
+        mp = b["outcome"][0] == "panic" and str(b["outcome"][1]).startswith("parse:")
+        nagain += mp
+        if mp and not (a["outcome"][0] == "panic" and str(a["outcome"][1]).startswith("parse:")):
+            ctx.violation("recompile", "the ill-formed spec %r assigned to an application that had already run with spec %r was not "
+                          "rejected: %r, callbacks %r" % (c["root"]["spec"], c["before"]["spec"], a["outcome"], a["trace"]), case=c)
+    ctx.stream("a new spec on an application that already ran", 0, spec_panics=nagain)
     # informational: the wording of the error messages (no property speaks about it)
     if stats["messages_differ"]:
         ctx.notes.append("%d error messages are worded differently by the implementation and by the model (positions agree)" % stats["messages_differ"])
@@ -1012,8 +1031,12 @@ def check_C19(ctx):
     envs = [None, "", "e1", "bad0", "e1, e2", "e1,bad2,e3"]
     combos = [(b, c, d, False) for b, c, d in itertools.product([False, True], repeat=3)]
     combos += [(True, c, d, True) for c, d in itertools.product([False, True], repeat=2)]   # IsBoolFlag() present, answers false
+    # the value is a Go map with value receivers (not comparable: it cannot be the key of a map)
+    combos += [(False, c, False, "map") for c in (False, True)]
     for isbool, clear, isdef, boolfalse in combos:
         cu = {"isbool": isbool, "clear": clear, "isdef": isdef, "isdefval": rng.random() < 0.5}
+        if boolfalse == "map":
+            cu["mapkind"], boolfalse = True, False
         if boolfalse:
             cu["isboolfalse"] = True
         flag = isbool and not boolfalse
@@ -1048,8 +1071,10 @@ def check_C19(ctx):
     # in company: the custom type next to a flag and an argument, in specs where OTHER matchers have to step over its
     # occurrences; only a type whose IsBoolFlag() answers true is stepped over as one token
     company = []
-    for isbool, boolfalse in ((False, False), (True, False), (True, True)):
+    for isbool, boolfalse in ((False, False), (True, False), (True, True), (False, "map")):
         cu = {"isbool": isbool, "clear": True, "isdef": False, "isdefval": False}
+        if boolfalse == "map":
+            cu["mapkind"], boolfalse = True, False
         if boolfalse:
             cu["isboolfalse"] = True
         flag = isbool and not boolfalse
@@ -1075,6 +1100,8 @@ def check_C19(ctx):
     # no SetByUser and no HideValue
     for isbool, clear, isdef, boolfalse in combos:
         cu = {"isbool": isbool, "clear": clear, "isdef": isdef, "isdefval": rng.random() < 0.5}
+        if boolfalse == "map":
+            cu["mapkind"], boolfalse = True, False
         if boolfalse:
             cu["isboolfalse"] = True
         flag = isbool and not boolfalse
@@ -1120,7 +1147,8 @@ def check_C19(ctx):
     ctx.stream("custom types x env x command lines", 0, **stats)
     ctx.sample({"custom": {"isbool": True, "clear": True}, "env": ["e1, e2", None], "argv": ["-x", "--val=w"],
                 "expected_log": ["C", "S:e1", "S:e2", "C", "S:true", "S:w"]})
-    return ("the 8 combinations of the optional methods (IsBoolFlag, Clear, IsDefault) x option/argument x two environment "
+    return ("the 8 combinations of the optional methods (IsBoolFlag, Clear, IsDefault), a value whose IsBoolFlag() answers "
+            "false and a value of map kind with value receivers (not comparable) x option/argument x two environment "
             "variables over {unset, empty, valid, failing, list, list with a failing piece} x 0-3 command-line tokens (bare "
             "flag spelling when IsBoolFlag); the recorded call log is compared verbatim with the documented protocol")
 
@@ -1225,6 +1253,61 @@ def check_C20(ctx):
             ctx.violation("rerun", "spec %r argv %r: the second run of the same application differs from the first on %s: %r vs %r"
                           % (c["root"]["spec"], c["argv"], d, {x: a1[x] for x in d}, {x: a2[x] for x in d}), case=c)
     ctx.stream("same application run twice", len(rerun))
+    # (1c) two declarations bound to the same Go variable (the ...Ptr forms), or two values that both fail to parse: what
+    # is left in the variable, and the error reported, must be the same however often the program is rebuilt and rerun
+    # (the library keeps the parsed values in Go maps, whose iteration order is random) -- implementation only, no model
+    shared_dest = []
+    for kind, v1, v2 in (("int", "1", "2"), ("string", "p", "q"), ("strings", "p", "q")):
+        for shape in ("oo", "oa", "aa", "ooa"):
+            decls, argvs = [], []
+            names_o, names_a = ["a aa", "b bb", "c"], ["SRC", "DST"]
+            no = shape.count("o")
+            for k in range(no):
+                decls.append(gen.mkopt(kind, names_o[k], destshare="d"))
+            for k in range(len(shape) - no):
+                decls.append(gen.mkarg(kind, names_a[k], destshare="d"))
+            spec = " ".join(["-" + n.split()[0] for n in names_o[:no]] + names_a[:len(shape) - no])
+            line = []
+            for k in range(no):
+                line += ["-" + names_o[k].split()[0], [v1, v2, "r"][k]]
+            line += [[v2, v1][k] for k in range(len(shape) - no)]
+            argvs.append(line)
+            if no == 2 and len(shape) == 2:
+                argvs.append(line[2:] + line[:2])
+            for argv in argvs:
+                shared_dest.append({"op": "run", "env": {}, "version": None, "argv": argv,
+                                    "root": gen.mkcmd("app", decls=copy.deepcopy(decls), spec=spec, policy=0)})
+        # an option and an argument may carry the same name (-N and N)
+        decls = [gen.mkopt(kind, "N", destshare="d"), gen.mkarg(kind, "N", destshare="d")]
+        shared_dest.append({"op": "run", "env": {}, "version": None, "argv": ["-N", v1, v2],
+                            "root": gen.mkcmd("app", decls=decls, spec="-N N", policy=0)})
+    for n_bad in (2, 3):
+        names = ["a", "b", "c"][:n_bad]
+        decls = [gen.mkopt("int", n) for n in names] + [gen.mkarg("int", "N")]
+        for with_arg in (False, True):
+            argv = [t for k, n in enumerate(names) for t in ("-" + n, "x%d" % k)] + (["y"] if with_arg else [])
+            spec = " ".join("-" + n for n in names) + (" N" if with_arg else " [N]")
+            shared_dest.append({"op": "run", "env": {}, "version": None, "argv": argv,
+                                "root": gen.mkcmd("app", decls=copy.deepcopy(decls), spec=spec, policy=0)})
+    copies = []
+    for c in shared_dest:
+        for k in range(ctx.scale(10, 40)):
+            copies.append(copy.deepcopy(c))
+    number(copies, start=len(base) + len(rerun))
+    rs = core.run_impl(copies)
+    per = ctx.scale(10, 40)
+    for i, c in enumerate(shared_dest):
+        group = copies[i * per:(i + 1) * per]
+        ctx.count(c)
+        first = core.obs_impl(rs[group[0]["id"]])
+        for g in group[1:]:
+            o = core.obs_impl(rs[g["id"]])
+            d = diff_obs(first, o, ["outcome", "trace", "values", "stderr"])
+            if d:
+                ctx.violation("determinism", "spec %r argv %r: the same program rebuilt and rerun differs on %s: %r vs %r"
+                              % (c["root"]["spec"], c["argv"], d, {x: first[x] for x in d}, {x: o[x] for x in d}), case=g)
+                break
+    ctx.stream("shared destinations and several invalid values, rebuilt and rerun", len(copies), programs=len(shared_dest))
     # (2) concurrent under the race detector
     binary = os.path.join(core.HARNESS, "harness_race")
     groups = [base[i:i + 12] for i in range(0, len(base), 12)]
